@@ -14,6 +14,9 @@ CONSTANTS
   R2S <- R2Sdef_t_cylp_ren
   ZStep = 1
   CentralRule = "halfopen"
+  SpanHandling = "central"
+  ZWeight = "count"
+  Reading = "cells"
   SpanRule = "whole"
 INVARIANT SingleCorrect
 INVARIANT PeriodicCorrect
